@@ -85,6 +85,7 @@ Record anode_ok (me : name) (nd : node) : Prop := {
   a_pendc : incl (n_pend_calc nd) (n_all_calc nd);
   a_pendt : incl (n_pend_task nd) (n_all_task nd);
   a_wcalc : incl (n_wcalc nd) (n_all_calc nd);
+  a_wrun : incl (n_wrun nd) (n_all_task nd ++ t_setup (get_task me));
   a_pc : pc_ok me nd;
   a_anc : achain (n_anc nd) me
 }.
@@ -96,6 +97,7 @@ Proof.
   intros Ha. split; simpl; auto; try apply incl_refl.
   - intros y Hy. apply ec_static. exact Hy.
   - intros y Hy. apply ed_static. unfold static_deps. rewrite !in_app_iff. auto.
+  - intros y [].
   - intros y [].
   - exact I.
 Qed.
@@ -131,20 +133,21 @@ Qed.
 
 (* fields untouched by the small node updates *)
 Lemma aok_wme me nd w : anode_ok me nd -> anode_ok me (nd_wme nd w).
-Proof. intros [A B C D E F G]. split; auto. Qed.
+Proof. intros [A B C D E W F G]. split; auto. Qed.
 Lemma aok_st me nd s : anode_ok me nd -> anode_ok me (nd_st nd s).
-Proof. intros [A B C D E F G]. split; auto. Qed.
+Proof. intros [A B C D E W F G]. split; auto. Qed.
 Lemma aok_wsel me nd b : anode_ok me nd -> anode_ok me (nd_wsel nd b).
-Proof. intros [A B C D E F G]. split; auto. Qed.
-Lemma aok_wait me nd wr wc : anode_ok me nd -> incl wc (n_all_calc nd) -> anode_ok me (nd_wait nd wr wc).
-Proof. intros [A B C D E F G] H. split; auto. Qed.
+Proof. intros [A B C D E W F G]. split; auto. Qed.
+Lemma aok_wait me nd wr wc : anode_ok me nd -> incl wc (n_all_calc nd) ->
+  incl wr (n_all_task nd ++ t_setup (get_task me)) -> anode_ok me (nd_wait nd wr wc).
+Proof. intros [A B C D E W F G] H H'. split; auto. Qed.
 Lemma aok_parent me nd dep s : anode_ok me nd -> anode_ok me (parent_status nd dep s).
-Proof. intros H. destruct s; simpl; auto; destruct H as [A B C D E F G]; split; auto. Qed.
+Proof. intros H. destruct s; simpl; auto; destruct H as [A B C D E W F G]; split; auto. Qed.
 
 Lemma aok_process_calc me nd c s :
   anode_ok me nd -> eff_calc me c -> anode_ok me (process_calc nd c s).
 Proof.
-  intros [A B C D E F G] Hc. unfold Dispatch.process_calc. destruct (calc_values_visible s); [|split; auto].
+  intros [A B C D E W F G] Hc. unfold Dispatch.process_calc. destruct (calc_values_visible s); [|split; auto].
   set (all1 := n_all_task nd ++ t_calc_new_task (get_task c)).
   set (impl := fold_left add_if_new (t_calc_new_impl (get_task c)) all1).
   set (newc := filter _ _).
@@ -167,6 +170,8 @@ Proof.
     + rewrite Hext in Hy. rewrite skipn_app, skipn_all, Nat.sub_diag in Hy. simpl in Hy.
       rewrite Hext. apply in_app_iff. right. exact Hy.
   - intros y Hy. apply in_app_iff. left. apply E. exact Hy.
+  - intros y Hy. specialize (W y Hy). rewrite in_app_iff in *. destruct W as [W|W]; auto.
+    left. rewrite Hext. apply in_app_iff. left. exact W.
   - unfold pc_ok in *. simpl. destruct (n_pc nd); auto.
     + destruct F as (F1 & F2 & F3). repeat split; auto.
       * intros y Hy. apply in_app_iff. left. apply F2. exact Hy.
@@ -178,13 +183,14 @@ Qed.
 (* ---------- _node_add_wait_run ---------- *)
 Lemma add_wait_one_A d me x calc :
   AInv d -> (calc = true -> In x (n_all_calc (node_of d me))) ->
+  (calc = false -> In x (n_all_task (node_of d me) ++ t_setup (get_task me))) ->
   AInv (add_wait_one d me x calc) /\
   n_pc (node_of (add_wait_one d me x calc) me) = n_pc (node_of d me) /\
   n_anc (node_of (add_wait_one d me x calc) me) = n_anc (node_of d me) /\
   incl (n_all_calc (node_of d me)) (n_all_calc (node_of (add_wait_one d me x calc) me)) /\
   incl (n_all_task (node_of d me)) (n_all_task (node_of (add_wait_one d me x calc) me)).
 Proof.
-  intros H Hc. unfold Dispatch.add_wait_one.
+  intros H Hc Hnc. unfold Dispatch.add_wait_one.
   destruct (unfinished (st_of tasks d x)) eqn:Eu.
   - set (nx := node_of d x).
     set (d1 := set_node d x (nd_wme nx (addset me (n_wme nx)))).
@@ -197,10 +203,14 @@ Proof.
     pose proof (anode_of_ok d1 me H1) as Hme. rewrite Hnd1 in Hme.
     split; [|rewrite node_of_set_same; destruct calc; simpl; rewrite Hnd1; simpl; repeat split; auto; apply incl_refl].
     apply AInv_set_node; auto. destruct calc.
-    + apply aok_wait; [rewrite Hnd1; exact Hme|]. rewrite Hnd1. simpl.
-      intros y Hy. apply addset_In in Hy. destruct Hy as [->|Hy]; [apply Hc; reflexivity|].
-      apply (a_wcalc _ _ Hme). exact Hy.
-    + apply aok_wait; [rewrite Hnd1; exact Hme|]. rewrite Hnd1. simpl. apply (a_wcalc _ _ Hme).
+    + apply aok_wait; [rewrite Hnd1; exact Hme| |]; rewrite Hnd1; simpl.
+      * intros y Hy. apply addset_In in Hy. destruct Hy as [->|Hy]; [apply Hc; reflexivity|].
+        apply (a_wcalc _ _ Hme). exact Hy.
+      * apply (a_wrun _ _ Hme).
+    + apply aok_wait; [rewrite Hnd1; exact Hme| |]; rewrite Hnd1; simpl.
+      * apply (a_wcalc _ _ Hme).
+      * intros y Hy. apply addset_In in Hy. destruct Hy as [->|Hy]; [apply Hnc; reflexivity|].
+        apply (a_wrun _ _ Hme). exact Hy.
   - set (nd0 := node_of d me). set (nd1 := parent_status nd0 x (st_of tasks d x)).
     assert (Hf1 := parent_status_fields nd0 x (st_of tasks d x)). cbv zeta in Hf1. fold nd1 in Hf1.
     destruct Hf1 as (f1 & f2 & f3 & f4 & f5 & f6 & f7 & f8 & f9).
@@ -221,18 +231,21 @@ Qed.
 
 Lemma add_wait_run_A l : forall d me calc,
   AInv d -> (calc = true -> incl l (n_all_calc (node_of d me))) ->
+  (calc = false -> incl l (n_all_task (node_of d me) ++ t_setup (get_task me))) ->
   AInv (add_wait_run d me l calc) /\
   n_pc (node_of (add_wait_run d me l calc) me) = n_pc (node_of d me) /\
   n_anc (node_of (add_wait_run d me l calc) me) = n_anc (node_of d me) /\
   incl (n_all_calc (node_of d me)) (n_all_calc (node_of (add_wait_run d me l calc) me)) /\
   incl (n_all_task (node_of d me)) (n_all_task (node_of (add_wait_run d me l calc) me)).
 Proof.
-  induction l as [|x r IH]; intros d me calc H Hc; cbn [Dispatch.add_wait_run].
+  induction l as [|x r IH]; intros d me calc H Hc Hnc; cbn [Dispatch.add_wait_run].
   - split; auto. split; auto. split; auto. split; apply incl_refl.
   - destruct (add_wait_one_A d me x calc H) as (H1 & P1 & A1 & I1 & J1).
     { intros E. apply (Hc E). left; reflexivity. }
+    { intros E. apply (Hnc E). left; reflexivity. }
     destruct (IH (add_wait_one d me x calc) me calc H1) as (H2 & P2 & A2 & I2 & J2).
     { intros E y Hy. apply I1. apply (Hc E). right; exact Hy. }
+    { intros E y Hy. specialize (Hnc E y (or_intror Hy)). rewrite in_app_iff in *. destruct Hnc as [Hn|Hn]; auto. }
     split; auto. split; [congruence|]. split; [congruence|]. split; eapply incl_tran; eauto.
 Qed.
 
@@ -240,7 +253,7 @@ Lemma set_pc_A d me p :
   AInv d -> pc_ok me (nd_pc (node_of d me) p) -> AInv (set_pc d me p).
 Proof.
   intros H Hp. unfold Dispatch.set_pc. apply AInv_set_node; auto.
-  destruct (anode_of_ok d me H) as [A B C D E F G]. split; auto.
+  destruct (anode_of_ok d me H) as [A B C D E W F G]. split; auto.
 Qed.
 
 (* ---------- one resumption of the generator ---------- *)
@@ -296,7 +309,7 @@ Proof.
   assert (Hdone : forall d0, AInv d0 -> forall y0, (forall p, y0 <> YCycle p) -> (y0, d0) = (y, d') ->
                   AInv d' /\ (forall p, y = YCycle p -> exists k, reach k k)).
   { intros d0 H0 y0 Hy0 E. inversion E; subst. split; auto. intros p Ep. exfalso. eapply Hy0; eauto. }
-  pose proof (anode_of_ok d me H) as Hme. destruct Hme as [Ac At Apc Apt Aw Ap Aa].
+  pose proof (anode_of_ok d me H) as Hme. destruct Hme as [Ac At Apc Apt Aw Awr Ap Aa].
   destruct (n_pc (node_of d me)) as [|rest calcs tks|rest tks| | | |rest| |] eqn:Epc.
   - (* PLoop *)
     eapply IH; [|exact Hg]. apply AInv_set_node; auto. split; simpl; auto.
@@ -309,6 +322,7 @@ Proof.
     destruct rest as [|c r].
     + destruct (add_wait_run_A calcs d me true H) as (H1 & E1 & E2 & I1 & J1).
       { intros _. exact P2. }
+      { intros E; discriminate. }
       eapply IH; [|exact Hg]. apply set_pc_A; auto. unfold pc_ok. simpl. split; [apply incl_refl|].
       eapply incl_tran; eauto.
     + assert (Hex : d_nodes d me <> None) by (apply (exists_of_pc tasks); rewrite Epc; discriminate).
@@ -326,6 +340,7 @@ Proof.
     destruct rest as [|c r].
     + destruct (add_wait_run_A tks d me false H) as (H1 & E1 & E2 & I1 & J1).
       { intros E; discriminate. }
+      { intros _ z Hz. apply in_app_iff. left. apply P2. exact Hz. }
       set (d1 := add_wait_run d me tks false) in *.
       assert (HL : AInv (set_pc d1 me PLoop)) by (apply set_pc_A; auto; exact I).
       assert (HS : AInv (set_pc d1 me PSelf)) by (apply set_pc_A; auto; exact I).
@@ -362,6 +377,7 @@ Proof.
     destruct rest as [|c r].
     + destruct (add_wait_run_A (t_setup (get_task me)) d me false H) as (H1 & E1 & E2 & I1 & J1).
       { intros E; discriminate. }
+      { intros _ z Hz. apply in_app_iff. right. exact Hz. }
       set (d1 := add_wait_run d me (t_setup (get_task me)) false) in *.
       destruct (is_nil (n_wrun (node_of d1 me))).
       * eapply Hdone; [| |exact Hg]; [apply set_pc_A; auto; exact I|intros p; discriminate].
@@ -392,7 +408,9 @@ Proof.
   destruct Hf1 as (f1 & f2 & f3 & f4 & f5 & f6 & f7 & f8 & f9).
   assert (Hnw : anode_ok w nw) by (apply aok_parent; exact Hn).
   assert (Hnw1 : anode_ok w (nd_wait nw (rem fin (n_wrun nw)) (rem fin (n_wcalc nw)))).
-  { apply aok_wait; auto. intros y Hy. apply rem_In in Hy. apply (a_wcalc _ _ Hnw). apply Hy. }
+  { apply aok_wait; auto.
+    - intros y Hy. apply rem_In in Hy. apply (a_wcalc _ _ Hnw). apply Hy.
+    - intros y Hy. apply rem_In in Hy. apply (a_wrun _ _ Hnw). apply Hy. }
   destruct (mem fin (n_wcalc nd)) eqn:Ec; auto.
   apply aok_process_calc; auto.
   apply (a_calc _ _ Hn). apply (a_wcalc _ _ Hn). apply mem_In. exact Ec.
